@@ -17,6 +17,8 @@ import (
 const (
 	d7Base     = 1000000
 	edgeBase   = 1100000
+	wrapBase   = 1200000
+	nWrap      = 28
 	corpusBase = 1500000
 	enumBase   = 2000000
 	enumStride = 1000000
